@@ -128,18 +128,33 @@ fn populate(dir: &Path, st: &State, texts: &[Vec<String>], extra_texts: &[String
     for (i, v) in st.vars.iter().enumerate() {
         world::write(dir, &world::link_file("s", f[i]), &texts[i][*v]);
     }
+    // the single link of the neighbouring step `o`
+    let o = keys::get("ed5");
+    world::write(dir, &world::link_file("o", o), &world::block_text(&world::sign_link(world::link("o", world::arts(&[]), world::arts(&[("x", 1)])), &[o])));
     match st.extra {
-        1 => world::write(dir, &world::link_file("s", keys::get("ed5")), &extra_texts[0]),
+        1 => world::write(dir, &world::link_file("s", keys::get("ec1")), &extra_texts[0]),
         2 => world::write(dir, &world::link_file("s", f[3]), &extra_texts[1]),
         _ => {}
     }
 }
 
-fn layout(k: usize, t: u32) -> Metablock {
+pub const SHAPES: [&str; 4] = ["alone", "after-a-single-party-step", "before-a-single-party-step", "after-a-threshold-0-step"];
+
+/// The multi-party step `s` alone, or next to a single-party step `o` (whose one link is
+/// always present and valid).
+fn layout(shape: &str, t: u32) -> Metablock {
     let f = fns();
-    // all four are authorised and in the key table
-    let _ = k;
-    world::sign_layout(world::layout(vec![world::step("s", t, &f)], vec![], &f, world::far_future()), &[keys::get("ed6")])
+    let s = world::step("s", t, &f);
+    let o = |thr: u32| world::step("o", thr, &[keys::get("ed5")]);
+    let steps = match shape {
+        "after-a-single-party-step" => vec![o(1), s],
+        "before-a-single-party-step" => vec![s, o(1)],
+        "after-a-threshold-0-step" => vec![o(0), s],
+        _ => vec![s],
+    };
+    let mut table: Vec<&Key> = f.to_vec();
+    table.push(keys::get("ed5"));
+    world::sign_layout(world::layout(steps, vec![], &table, world::far_future()), &[keys::get("ed6")])
 }
 
 fn all_equal(st: &State) -> bool {
@@ -192,7 +207,7 @@ pub fn run(tier: Tier) -> i32 {
     // pre-sign every (functionary, variation)
     let texts: Vec<Vec<String>> = f.iter().map(|k| (0..VARIATIONS.len()).map(|v| world::block_text(&world::sign_link(link_for(v), &[k]))).collect()).collect();
     let extra_texts = [
-        world::block_text(&world::sign_link(link_for(12), &[keys::get("ed5")])),
+        world::block_text(&world::sign_link(link_for(12), &[keys::get("ec1")])),
         {
             let mut v = world::block_value(&world::sign_link(link_for(0), &[f[3]]));
             v["signed"]["products"]["a"]["sha256"] = json!(util::hex(&world::h(99)));
@@ -243,7 +258,13 @@ pub fn run(tier: Tier) -> i32 {
         acc.transitions += transitions;
         bounds.push(format!("k={k}: {} states", order.len()));
         let thresholds: Vec<u32> = (2..=(k as u32).min(3)).collect();
-        let layouts: Vec<(u32, Metablock)> = thresholds.iter().map(|t| (*t, layout(k, *t))).collect();
+        // every shape for k = 2; the neighbouring-step shapes only with threshold 2 for larger k
+        let layouts: Vec<(u32, &str, Metablock)> = thresholds
+            .iter()
+            .flat_map(|t| SHAPES.iter().map(move |sh| (*t, *sh)))
+            .filter(|(t, sh)| k == 2 || *sh == "alone" || *t == 2)
+            .map(|(t, sh)| (t, sh, layout(sh, t)))
+            .collect();
         let accs = util::par_fold(
             &order,
             || (Acc::new(), util::fresh_dir("c07")),
@@ -252,7 +273,7 @@ pub fn run(tier: Tier) -> i32 {
                 if !all_equal(st) {
                     acc.nontrivial += 1;
                 }
-                for (t, lay) in &layouts {
+                for (t, shape, lay) in &layouts {
                     let runs = run_all_orders(dir, lay, acc);
                     let distinct: HashSet<&'static str> = runs.iter().map(|(_, v)| v.tag()).collect();
                     acc.outcome(&format!("{}|{}", if all_equal(st) { "agree" } else { "dissent" }, distinct.iter().cloned().collect::<Vec<_>>().join("+")));
@@ -280,7 +301,11 @@ pub fn run(tier: Tier) -> i32 {
                                     populate(dir, st, &texts, &extra_texts);
                                     let kinds: std::collections::BTreeSet<&str> = small.vars.iter().map(|v| VARIATIONS[*v]).filter(|n| *n != "none").collect();
                                     let key = format!("accepted-dissent:{}", kinds.into_iter().collect::<Vec<_>>().join("+"));
-                                    acc.violation(&key, &format!("a step with threshold {t} was accepted although its validly signed authorised links do not all report the same artifacts ({key})"), || state_json(&small, *t, script));
+                                    acc.violation(&key, &format!("a step with threshold {t} ({shape}) was accepted although its validly signed authorised links do not all report the same artifacts ({key})"), || {
+                                        let mut j = state_json(&small, *t, script);
+                                        j["shape"] = json!(shape);
+                                        j
+                                    });
                                 }
                             }
                             Verdict::Panic(l, m) => acc.violation(&format!("panic:{l}"), &format!("verification panicked at {l}: {m}"), || state_json(st, *t, script)),
@@ -296,7 +321,7 @@ pub fn run(tier: Tier) -> i32 {
         acc.merge(Acc::merge_all(accs.into_iter().map(|(a, _)| a).collect()));
     }
     c.acc = acc;
-    c.rule = "state = vector of per-link variations (21 kinds: none; in materials or products: other path, last / first digest byte, other algorithm, second algorithm added, extra entry sorting last / first, missing last / first entry, empty map) for k authorised valid links, optionally plus a dissenting link by a key outside the key table or a tampered one; transition = change one link's variation; every state runs in_toto_verify for thresholds 2..min(k,3) under every permutation of the reference-link choice (site C); non-trivial = vectors that are not all equal".into();
+    c.rule = "state = vector of per-link variations (21 kinds: none; in materials or products: other path, last / first digest byte, other algorithm, second algorithm added, extra entry sorting last / first, missing last / first entry, empty map) for k authorised valid links, optionally plus a dissenting link by a key outside the key table or a tampered one; transition = change one link's variation; every state runs in_toto_verify for thresholds 2..min(k,3), with the step alone and next to a single-party step (before it, after it, after a threshold-0 step) under every permutation of the reference-link choice (site C); non-trivial = vectors that are not all equal".into();
     c.bound_completed = format!("complete variation vectors for {} (BFS reaches every vector)", bounds.join(", "));
     c.assume("all k links are validly signed by authorised keys of the key table; no rules (isolates C03)");
     c.finish()
@@ -308,10 +333,11 @@ pub fn replay(case: &Value) -> Value {
     let st = State { vars, extra: case["extra"].as_u64().unwrap_or(0) as u8 };
     let t = case["threshold"].as_u64().unwrap_or(2) as u32;
     let texts: Vec<Vec<String>> = f.iter().map(|k| (0..VARIATIONS.len()).map(|v| world::block_text(&world::sign_link(link_for(v), &[k]))).collect()).collect();
-    let extra_texts = [world::block_text(&world::sign_link(link_for(12), &[keys::get("ed5")])), "{}".to_string()];
+    let extra_texts = [world::block_text(&world::sign_link(link_for(12), &[keys::get("ec1")])), "{}".to_string()];
     let dir = util::fresh_dir("c07r");
     populate(&dir, &st, &texts, &extra_texts);
-    let runs = run_all_orders(&dir, &layout(st.vars.len(), t), &mut Acc::new());
+    let shape = SHAPES.iter().copied().find(|s| Some(*s) == case["shape"].as_str()).unwrap_or("alone");
+    let runs = run_all_orders(&dir, &layout(shape, t), &mut Acc::new());
     let accepted = runs.iter().any(|(_, v)| v.is_ok());
     json!({
         "verdicts": runs.iter().map(|(s, v)| json!({"schedule": s, "verdict": v.tag()})).collect::<Vec<_>>(),
